@@ -30,6 +30,14 @@ CLAIMED["C16"] = dict(
     technique="Coq proof (case analysis on forms, induction over histories) + extracted-model correspondence",
 )
 
+CLAIMED["C05"] = dict(
+    category="proof",
+    text="Theorems in coq/Props/Properties_C05.v: jose_jwk_prm (model over the operation table regenerated from the running registry) EQUALS the RFC 7517 grant formula of the property for every JSON object and operation name (C05_prm_spec; the table itself is proved to be RFC 7517's eight operations); at sign, verify, unwrap, content encryption, content decryption and exchange the decision models refuse EVERY pair of different strings (header/peer alg vs key alg), independent of the registered algorithms and of lexicographic order; an operation that proceeds was granted. Tie: the decision models run with ideal primitives built from the regenerated registry vs the real entry points on complete grids (all ordered name pairs incl. foreign names; all 2^8 key_ops subsets x use x op x req), objects produced by the library with keys valid for the header algorithm so that a skipped comparison shows as acceptance.",
+    design_ref="DESIGN.md section 3 C05",
+    note="Coq kernel; no axioms; the models of the entry points' decision prefixes are hand-written and tied by correspondence; jose_jwe_enc_jwk (wrapping) is not in the property's list.",
+    technique="Coq proof (boolean case analysis over the generated table; unfolding of decision prefixes) + exhaustive-grid correspondence",
+)
+
 NOT_YET = {}
 
 def main():
